@@ -36,6 +36,7 @@ pub fn generate(prop: &str, tier: &str, seed: u64, outdir: &str) {
         "C18" => gen_c18(&mut out, &mut rng, thorough),
         "C13" => gen_c13(&mut out, &mut rng, thorough),
         "C19" => gen_c19(&mut out, &mut rng, thorough),
+        "C14" => gen_c14(&mut out, &mut rng, thorough),
         _ => {
             eprintln!("no generator for {prop}");
             std::process::exit(2);
@@ -390,5 +391,113 @@ fn gen_c19(out: &mut Out, rng: &mut Rng, thorough: bool) {
         let d = 3 + rng.below(3) as usize;
         let e = random_expr(rng, d, &leaves);
         out.req("random_deep", format!("fmt {}", e.to_line()));
+    }
+}
+
+// ------------------------------------------------------------------------------------
+// C14
+
+fn per_char_codes(cp: msi::CodePage, s: &str) -> String {
+    // per-character codes as the real crate produces them for one-character strings;
+    // `?` marks an unmappable character
+    let mut parts: Vec<String> = vec![];
+    let mut buf = [0u8; 4];
+    for c in s.chars() {
+        let e = cp.encode(c.encode_utf8(&mut buf));
+        if e == b"?" && c != '?' {
+            parts.push("?".to_string());
+        } else {
+            parts.push(hex_of_bytes(&e));
+        }
+    }
+    if parts.is_empty() {
+        "_".to_string()
+    } else {
+        parts.join(",")
+    }
+}
+
+fn gen_c14(out: &mut Out, rng: &mut Rng, thorough: bool) {
+    use crate::exec::ALL_CP;
+    for (name, _) in ALL_CP {
+        out.req("cp_id", format!("cp_id {name}"));
+    }
+    // identifiers: everything a u16 can hold, neighbours of every known id, i16/i32 wrap-arounds
+    for n in 0..=65535i64 {
+        out.req("cp_from_id", format!("cp_from_id {n}"));
+    }
+    for (_, cp) in ALL_CP {
+        let id = cp.id() as i64;
+        for d in [-65536i64, -1, 0, 1, 65536, 1 << 31] {
+            let v = id + d;
+            if v >= i32::MIN as i64 && v <= i32::MAX as i64 {
+                out.req("cp_from_id", format!("cp_from_id {v}"));
+            }
+        }
+        out.req("cp_from_id", format!("cp_from_id {}", (id as i16) as i64));
+        out.req("cp_from_id", format!("cp_from_id {}", -id));
+    }
+    for v in [i32::MIN as i64, i32::MAX as i64, -1, -535] {
+        out.req("cp_from_id", format!("cp_from_id {v}"));
+    }
+    out.exhaustive.push("from_id on all ids 0..65535 and wrap-around neighbours of every known id".into());
+    // complete per-character sweep and decode sweep on the real implementation (oracle only)
+    for (name, _) in ALL_CP {
+        out.req("sweep", format!("@cp_sweep {name}"));
+        out.req("sweep", format!("@cp_decode_sweep {name}"));
+    }
+    out.exhaustive.push("all 1,112,064 scalar values x 26 code pages (encode/decode law, wiring against encoding_rs used directly); all 1- and 2-byte sequences x 26 pages (decode total)".into());
+    // strings straddling the 1024-byte buffer with multi-byte and unmappable characters at the boundary
+    let samples: &[(&str, &[&str])] = &[
+        ("Utf8", &["a", "\u{e9}", "\u{20ac}", "\u{1f600}", "\u{feff}"]),
+        ("UsAscii", &["a", "\u{e9}", "?"]),
+        ("Windows1252", &["a", "\u{e9}", "\u{20ac}", "\u{2603}", "\u{ff}", "\u{fe}"]),
+        ("Windows932", &["a", "\u{3042}", "\u{ff76}", "\u{2603}", "\u{e9}"]),
+        ("Windows936", &["a", "\u{4e2d}", "\u{20ac}", "\u{1f600}"]),
+        ("Windows949", &["a", "\u{d55c}", "\u{2603}", "\u{e9}"]),
+        ("Windows950", &["a", "\u{4e2d}", "\u{2603}", "\u{e9}"]),
+        ("Windows1251", &["a", "\u{436}", "\u{e9}"]),
+        ("MacintoshRoman", &["a", "\u{e9}", "\u{3042}"]),
+        ("Iso88597", &["a", "\u{3b1}", "\u{e9}"]),
+    ];
+    let positions: Vec<usize> = if thorough { (1015..=1032).collect() } else { vec![1020, 1021, 1022, 1023, 1024, 1025, 1026] };
+    for (name, chars) in samples {
+        let cp = crate::exec::cp_by_name(name).unwrap();
+        for &pos in &positions {
+            for c1 in chars.iter() {
+                for c2 in chars.iter() {
+                    // `pos` ASCII bytes, then the two characters, then a tail crossing a second boundary
+                    let mut s = "x".repeat(pos);
+                    s.push_str(c1);
+                    s.push_str(c2);
+                    if rng.chance(1, 2) {
+                        s.push_str(&"y".repeat(1024 - 2 + rng.below(5) as usize));
+                        s.push_str(c2);
+                        s.push_str(c1);
+                    }
+                    out.req("enc_loop", format!("enc_loop {name} {} {}", hex_of_str(&s), per_char_codes(cp, &s)));
+                }
+            }
+        }
+    }
+    // random strings of random lengths for every page
+    let n = if thorough { 20_000 } else { 1_500 };
+    let pool: Vec<char> = "az09 ?\u{e9}\u{df}\u{20ac}\u{436}\u{3b1}\u{5d0}\u{627}\u{3042}\u{4e2d}\u{d55c}\u{2603}\u{1f600}\u{feff}\u{fffd}".chars().collect();
+    for _ in 0..n {
+        let (name, cp) = *rng.pick(ALL_CP);
+        let len = match rng.below(4) {
+            0 => rng.below(8),
+            1 => rng.below(300),
+            2 => 1000 + rng.below(60),
+            _ => rng.below(3000),
+        } as usize;
+        let s: String = (0..len).map(|_| if rng.chance(3, 4) { 'k' } else { *rng.pick(&pool) }).collect();
+        out.req("enc_loop_random", format!("enc_loop {name} {} {}", hex_of_str(&s), per_char_codes(cp, &s)));
+    }
+    // ASCII / UTF-8 decode of arbitrary bytes is modelled only for ASCII; UTF-8 valid round trips
+    for _ in 0..(if thorough { 20_000 } else { 2_000 }) {
+        let len = rng.below(12) as usize;
+        let bs: Vec<u8> = (0..len).map(|_| rng.below(256) as u8).collect();
+        out.req("ascii_decode", format!("cp_decode UsAscii {}", hex_of_bytes(&bs)));
     }
 }
